@@ -13,6 +13,7 @@ def main():
     limit = int(sys.argv[1])
     cases = json.load(sys.stdin)
     resource.setrlimit(resource.RLIMIT_CPU, (limit, limit + 2))
+    resource.setrlimit(resource.RLIMIT_AS, (3 << 30, 3 << 30))
     sys.setrecursionlimit(20000)
     from . import fakes  # noqa: F401
     from txdbus import message
@@ -28,6 +29,8 @@ def main():
             out = 'value'
         except RecursionError:
             out = 'recursion'
+        except MemoryError:
+            out = 'memory'
         except Exception:
             out = 'exception'
         ms = int((time.process_time() - t) * 1000)
